@@ -183,7 +183,16 @@ def gen_line_or_scatter(rng, kind, tier):
         if numeric and rng.random() < 0.3:
             vals = sorted(c for c in (raw["vars"][coo]["cells"] if coo in raw["vars"] else raw["coords"][coo]["ids"]))
             lo, hi = vals[0], vals[-1]
-            which = rng.choice(["zlims", "vminmax", "inside"])
+            which = rng.choice(["zlims", "vminmax", "inside", "zero"])
+            if which == "zero":
+                # a limit of exactly zero (a falsy number) is a limit like any other
+                if hi > 0:
+                    opts["vmin"] = 0.0 if rng.random() < 0.5 else 0
+                    opts["vmax"] = (hi + rng.randint(1, 40)) / 4
+                elif lo < 0:
+                    opts["vmax"] = 0.0 if rng.random() < 0.5 else 0
+                    opts["vmin"] = (lo - rng.randint(1, 40)) / 4
+                which = "done"
             if which == "zlims":
                 opts["zlims"] = [(lo - rng.randint(0, 40)) / 4, (hi + rng.randint(1, 40)) / 4]
             elif which == "vminmax":
